@@ -95,7 +95,7 @@ fn case_strategy(_tier: Tier) -> BoxedStrategy<RetryCase> {
             max_attempts,
             script,
         });
-    (
+    let general = (
         0usize..=6,
         any::<bool>(),
         backoff,
@@ -116,8 +116,40 @@ fn case_strategy(_tier: Tier) -> BoxedStrategy<RetryCase> {
                 order,
                 step_ms,
             },
-        )
-        .boxed()
+        );
+    // long outage: one request retried 40-80 times against a capped exponential (or tiny fixed)
+    // backoff, so that high attempt indices of the built-in policies are exercised end to end
+    let long = (
+        40usize..=80,
+        prop_oneof![
+            3 => (1u64..=2, prop_oneof![Just(20u8), Just(15u8), Just(30u8)], 1u64..=4)
+                .prop_map(|(init, mult10, cap)| Backoff::Exp { init, mult10, cap: Some(cap) }),
+            1 => (1u64..=2, 0u8..=5, 1u64..=4)
+                .prop_map(|(init, factor10, cap)| Backoff::ExpRandom { init, factor10, cap: Some(cap) }),
+            1 => (0u64..=1).prop_map(Backoff::Fixed),
+        ],
+        prop_oneof![3 => Just(1u8), 1 => Just(0u8)],
+    )
+        .prop_map(|(max_attempts, backoff, last)| RetryCase {
+            max_attempts,
+            per_request: false,
+            backoff,
+            predicate: false,
+            budget: Budget::None,
+            requests: vec![Request {
+                at: 0,
+                max_attempts,
+                // fails (retryable) for 38+ attempts, then keeps failing or succeeds
+                script: {
+                    let mut v = vec![(0u64, 1u8); 38 + (max_attempts % 30)];
+                    v.push((0, last));
+                    v
+                },
+            }],
+            order: vec![],
+            step_ms: 1,
+        });
+    prop_oneof![14 => general, 1 => long].boxed()
 }
 
 struct LogInterval {
@@ -209,6 +241,8 @@ async fn interp(case: &RetryCase) -> Verdict {
     };
     // expected lower bound (ns) of the delay before retry k, where it is computed independently
     let mut independent: Option<Box<dyn Fn(usize) -> u128>> = None;
+    // checked in addition to the value the wrapped interval function reported
+    let mut independent_too: Option<Box<dyn Fn(usize) -> u128>> = None;
     b = match &case.backoff {
         Backoff::Fixed(ms) => {
             let ms = *ms;
@@ -223,6 +257,17 @@ async fn interp(case: &RetryCase) -> Verdict {
             b.exponential_backoff(Duration::from_millis(ms))
         }
         Backoff::Exp { init, mult10, cap } => {
+            // documented value, computed here without the library: min(init x mult^k, cap)
+            let (i0, m, c) = (*init as f64 * 1e6, *mult10 as f64 / 10.0, cap.map(|c| c as f64 * 1e6));
+            independent_too = Some(Box::new(move |k| {
+                let v = i0 * m.powi(k.min(2000) as i32);
+                let v = match c {
+                    Some(c) => v.min(c),
+                    None => v,
+                };
+                // float slack; an uncapped product is only checked up to a day
+                (v.min(86_400e9) * (1.0 - 1e-9)) as u128
+            }));
             let mut e = ExponentialBackoff::new(Duration::from_millis(*init))
                 .multiplier(*mult10 as f64 / 10.0);
             if let Some(c) = cap {
@@ -416,6 +461,15 @@ async fn interp(case: &RetryCase) -> Verdict {
                 }
                 // backoff
                 let gap_ns = (next_t - done_t) as u128 * 1_000_000;
+                if let Some(f) = &independent_too {
+                    let want = f(k);
+                    if gap_ns + 1_000 < want {
+                        violations.push(format!(
+                            "request {i}: retry {k} started {} ms after attempt {k} failed; the configured exponential backoff for retry {k} is min(initial x multiplier^{k}, max_interval) >= {} ns",
+                            next_t - done_t, want
+                        ));
+                    }
+                }
                 if let Some(f) = &independent {
                     let want = f(k);
                     if gap_ns + 1_000 < want {
